@@ -1192,17 +1192,17 @@ theorem prev_step (c : Cfg) (env : Env) (past fut : List Event) (e : Event)
       simp only [hk, if_false] at hh ⊢
       exact hb hh
 
-theorem prev_run (c : Cfg) (hfix : c.holdFix = true) (hexp : c.expiryNow = true) (env : Env) :
+theorem prev_run (c : Cfg) (env : Env) :
     ∀ (fut past : List Event) (s : SpecSt) (n : Node) (i : Nat), Domain13 c (past ++ fut) → RInv c past s n →
     PrevInv c n → firstFail (fun c _ o => returnFail c o) c s i ((trace env n fut).map obsOf) = none
   | [], _, _, _, _, _, _, _ => rfl
   | e :: fut, past, s, n, i, hdom, inv, hp => by
     simp only [trace, List.map_cons, firstFail]
-    rcases rinv_step c hfix hexp env past fut e hdom.dom s n inv with ⟨_, h2⟩
+    have h2 := rinv_step c env past fut e hdom.dom s n inv
     rcases prev_step c env past fut e hdom s n inv hp with ⟨h3, h4⟩
     rw [h3]
     simp only
-    exact prev_run c hfix hexp env fut (past ++ [e]) _ _ (i + 1) (by simpa using hdom) h2 h4
+    exact prev_run c env fut (past ++ [e]) _ _ (i + 1) (by simpa using hdom) h2 h4
 
 theorem prevInv_init (c : Cfg) (now : Nat) : PrevInv c (init c now) := by
   intro k it h
